@@ -236,7 +236,7 @@ func phiSelector(phi *ssa.Phi) (cond ssa.Value, edge0True bool, ok bool) {
 
 type compareSite struct {
 	fn     *ssa.Function
-	call   *ssa.Call
+	call   ssa.Instruction
 	kx, ky string
 }
 
@@ -246,20 +246,33 @@ func (c *Ctx) compareSites() []compareSite {
 	for _, fn := range c.Funcs {
 		for _, b := range fn.Blocks {
 			for _, ins := range b.Instrs {
-				call, ok := ins.(*ssa.Call)
-				if !ok {
+				var x, y ssa.Value
+				switch v := ins.(type) {
+				case *ssa.Call:
+					callee := v.Common().StaticCallee()
+					if callee == nil || callee.String() != "strings.Compare" {
+						continue
+					}
+					x, y = v.Common().Args[0], v.Common().Args[1]
+				case *ssa.BinOp:
+					if !isStringType(v.X.Type()) || !isStringType(v.Y.Type()) {
+						continue
+					}
+					switch v.Op {
+					case token.LSS, token.LEQ, token.GTR, token.GEQ, token.EQL, token.NEQ:
+						x, y = v.X, v.Y
+					default:
+						continue
+					}
+				default:
 					continue
 				}
-				callee := call.Common().StaticCallee()
-				if callee == nil || callee.String() != "strings.Compare" {
-					continue
-				}
-				kx := c.renderKind(call.Common().Args[0], 0)
-				ky := c.renderKind(call.Common().Args[1], 0)
+				kx := c.renderKind(x, 0)
+				ky := c.renderKind(y, 0)
 				if kx == "" || ky == "" {
 					continue // not (recognisably) a comparison of two rendered moments
 				}
-				out = append(out, compareSite{fn, call, kx, ky})
+				out = append(out, compareSite{fn, ins, kx, ky})
 			}
 		}
 	}
